@@ -43,9 +43,17 @@ func runGatedRandom(c *Ctx) {
 		case "C05":
 			w["del"] = 16
 		}
+		ttls := gatedTTLs
+		if i%4 == 2 {
+			// no-sweep mode: the ticker is set to hours, so entries whose short TTL has elapsed stay in the map
+			// (invisible to readers) until they are overwritten, deleted, cleared or the cache is closed
+			cfg.TTLTick = 7200
+			ttls = []time.Duration{0, time.Hour, 3 * time.Millisecond, 8 * time.Millisecond, 8 * time.Millisecond, -time.Second}
+			w["sleep"] = 6
+		}
 		nops := lab.Pick(rng, []int{30, 60, 120, 200})
 		cs := &gCase{Name: fmt.Sprintf("gated-%s-%d-buf%d-nk%d", prop, i, cfg.SetBuf, nk), Cfg: cfg, Stream: uint64(i), NOps: nops}
-		ops := genGatedOps(rng, nk, nops, w, costs, gatedTTLs)
+		ops := genGatedOps(rng, nk, nops, w, costs, ttls)
 		runGatedCase(c, prop, cs, ops)
 		if i%64 == 0 {
 			c.J.Rewind()
